@@ -154,9 +154,16 @@ def m_deref(m, callee, a):
 @model(re.compile(r'^<.* as Ord>::cmp$'), re.compile(r'^<.* as PartialOrd>::partial_cmp$'))
 def m_cmp(m, callee, a):
     x, y = deref(a[0]), deref(a[1])
+    while isinstance(x, (Ptr, RcV)): x = x.cell.v        # &&String, &Rc<..>: the comparison is on the pointee
+    while isinstance(y, (Ptr, RcV)): y = y.cell.v
     if isinstance(x, (RStr, StrRef)):
         r = ordering(str_cmp(m, as_rstr(x), as_rstr(y)))
     else:
+        if callee.endswith('partial_cmp'):
+            # f64: no ordering when either side is NaN
+            for v in (x, y):
+                if isinstance(v, float) and v != v: return none()
+                if isinstance(v, Sym) and v.ty == 'f64' and m.branch(Sym(z3.fpIsNaN(v.e), 'bool')): return none()
         if m.branch(m.binop('Lt', x, y)): r = ordering(-1)
         elif m.branch(m.binop('Gt', x, y)): r = ordering(1)
         else: r = ordering(0)
@@ -308,6 +315,24 @@ def m_iter_next(m, callee, a):
             it.extra[0] = lo + 1 if not isinstance(lo, Sym) else Sym(lo.e + 1, lo.ty)
             return some(lo)
         return none()
+    if it.kind == 'lazy':
+        # map / filter / filter_map / enumerate over another iterator: the closure runs when the element is asked for, as in Rust
+        x = it.extra; op = x['op']
+        while True:
+            nx = m_iter_next(m, '', [Ptr(Cell(x['src']))])
+            if nx.vidx == 0: return none()
+            v = nx.fields[0].v
+            if op == 'map': return some(call_closure(m, x['f'], [v]))
+            if op == 'enumerate':
+                x['n'] += 1; return some(Agg(None, None, None, [x['n'] - 1, v]))
+            if op == 'filter':
+                if m.branch(call_closure(m, x['f'], [Ptr(Cell(v))])): return some(v)
+                continue
+            if op == 'filter_map':
+                r = call_closure(m, x['f'], [v])
+                if r.vidx == 1: return r
+                continue
+            raise Unsupported('lazy iterator op ' + op)
     if it.kind == 'chars':
         if it.pos < len(it.cells):
             c = it.cells[it.pos]; it.pos += 1
@@ -326,7 +351,10 @@ def m_iter_next(m, callee, a):
 
 @model(re.compile(r'^<.* as Iterator>::enumerate$'))
 def m_enumerate(m, callee, a):
-    it = a[0]; it.extra = 'enumerate'; return it
+    it = a[0]
+    if not isinstance(it, IterV): it = m_into_iter(m, '', [it])
+    if it.kind in ('lazy', 'range'): return IterV('lazy', None, {'op': 'enumerate', 'src': it, 'n': 0})
+    it.extra = 'enumerate'; return it
 
 
 @model(re.compile(r'^<.* as Iterator>::fold$'))
@@ -348,7 +376,7 @@ def call_closure(m, f, args):
         selfv = Ptr(Cell(f)) if self_ty.startswith('&') else f
         packed = args
         return m.call(fn, [selfv] + packed)
-    if isinstance(f, FnItem): return m.call(f.name, args)
+    if isinstance(f, FnItem): return m.call_value(f, args)
     raise Unsupported(f'call_closure {f!r}')
 
 
@@ -473,6 +501,28 @@ def m_chars(m, c, a): return IterV('chars', list(as_rstr(a[0]).chars))
 def m_collect(m, callee, a):
     it = a[0]
     target = callee[callee.rindex('::<') + 3:-1] if '::<' in callee else ''
+    head = target.replace('std::result::', '').replace('std::option::', '').replace('core::result::', '').replace('core::option::', '')
+    if head.startswith(('Result<', 'Option<')):
+        # stops at the first Err / None, like the std implementation (later elements are not asked for)
+        is_res = head.startswith('Result<'); vals = []
+        while True:
+            nx = m_iter_next(m, '', [Ptr(Cell(it))])
+            if nx.vidx == 0: break
+            v = nx.fields[0].v
+            good = (v.vidx == 0) if is_res else (v.vidx == 1)
+            if not good: return v
+            vals.append(v.fields[0].v)
+        inner = head[7:]
+        if inner.startswith('String') or inner.startswith('std::string::String'):
+            out = []
+            for v in vals:
+                if isinstance(v, (str, Sym)): out.append(v)
+                else: out.extend(as_rstr(v).chars)
+            body = RStr(out)
+        else: body = VecV([Cell(v) for v in vals])
+        return ok(body) if is_res else some(body)
+    if it.kind in ('lazy', 'range'):
+        it = IterV('own', [Cell(v) for v in _drain(m, it)])
     if it.kind == 'chars':
         items = it.cells[it.pos:]
         if 'String' in target: return RStr(items)
@@ -790,6 +840,19 @@ def m_lines(m, c, a):
 def m_map_iter(m, c, a):
     mp = deref(a[0])
     return IterV('mapiter', [Cell(Agg(None, None, None, [Ptr(Cell(kv)), Ptr(cell)])) for kv, cell in mp.e])
+
+
+@model('[]::sort_by', '[]::sort_unstable_by')
+def m_sort_by(m, c, a):
+    import functools
+    v = a[0] if isinstance(a[0], SliceRef) else deref(a[0])
+    cells = seq_cells(v)
+    def cmpf(x, y):
+        r = call_closure(m, a[1], [Ptr(Cell(x)), Ptr(Cell(y))])
+        return r.vidx if isinstance(r.vidx, int) and r.ty == 'Ordering' else {'Less': -1, 'Equal': 0, 'Greater': 1}[r.variant]
+    vals = sorted([x.v for x in cells], key=functools.cmp_to_key(cmpf))
+    for cell, val in zip(cells, vals): cell.v = val
+    return UNIT
 
 
 @model('[]::sort')
@@ -1208,6 +1271,31 @@ def m_opt_as_deref(m, c, a):
     raise Unsupported('Option::as_deref on %r' % (type(v).__name__,))
 
 
+@model('RangeInclusive::new')
+def m_range_incl_new(m, c, a): return Agg('RangeInclusive', None, None, [a[0], a[1], False])
+
+
+@model('Range::contains', 'RangeInclusive::contains', 'RangeFrom::contains', 'RangeTo::contains', 'RangeToInclusive::contains')
+def m_range_contains(m, callee, a):
+    r = deref(a[0]); x = deref_char(a[1])
+    def ge(u, v): return m.branch(m.binop('Ge', u, v))
+    def lt(u, v): return m.branch(m.binop('Lt', u, v))
+    def le(u, v): return m.branch(m.binop('Le', u, v))
+    f = [c.v for c in r.fields]
+    if r.ty == 'Range': return ge(x, f[0]) and lt(x, f[1])
+    if r.ty == 'RangeInclusive': return ge(x, f[0]) and le(x, f[1])
+    if r.ty == 'RangeFrom': return ge(x, f[0])
+    if r.ty == 'RangeTo': return lt(x, f[0])
+    if r.ty == 'RangeToInclusive': return le(x, f[0])
+    raise Unsupported('contains on ' + str(r.ty))
+
+
+@model('Option::flatten')
+def m_opt_flatten(m, c, a):
+    o = a[0]
+    return o.fields[0].v if o.vidx == 1 else none()
+
+
 @model('Option::filter')
 def m_opt_filter(m, c, a):
     o = a[0]
@@ -1274,6 +1362,14 @@ def m_opt_as_ref(m, c, a):
     return some(Ptr(o.fields[0])) if o.vidx == 1 else none()
 
 
+@model('Option::map_or_else', 'Result::map_or_else')
+def m_map_or_else(m, callee, a):
+    o = a[0]; is_res = o.ty == 'Result'
+    good = (o.vidx == 0) if is_res else (o.vidx == 1)
+    if good: return call_closure(m, a[2], [o.fields[0].v])
+    return call_closure(m, a[1], [o.fields[0].v] if is_res else [])
+
+
 @model('Option::map', 'Option::and_then', 'Option::unwrap_or_else', 'Option::map_or', 'Option::is_some_and', 'Result::map', 'Result::map_err', 'Result::unwrap_or_else')
 def m_opt_combinators(m, callee, a):
     key = canon_last(callee)
@@ -1300,21 +1396,13 @@ def m_iter_adapters(m, callee, a):
     it = a[0]
     while isinstance(it, Ptr): it = it.cell.v       # all/any/position/find/nth take &mut self
     if not isinstance(it, IterV): it = m_into_iter(m, '', [it])
-    def drain():
-        out = []
+    def each():
         while True:
             nx = m_iter_next(m, '', [Ptr(Cell(it))])
-            if nx.vidx == 0: return out
-            out.append(nx.fields[0].v)
-    if key == 'map': return IterV('own', [Cell(call_closure(m, a[1], [x])) for x in drain()])
-    if key == 'filter':
-        return IterV('own', [Cell(x) for x in drain() if m.branch(call_closure(m, a[1], [Ptr(Cell(x))]))])
-    if key == 'filter_map':
-        out = []
-        for x in drain():
-            r = call_closure(m, a[1], [x])
-            if r.vidx == 1: out.append(Cell(r.fields[0].v))
-        return IterV('own', out)
+            if nx.vidx == 0: return
+            yield nx.fields[0].v
+    def drain(): return list(each())
+    if key in ('map', 'filter', 'filter_map'): return IterV('lazy', None, {'op': key, 'src': it, 'f': a[1]})
     if key == 'rev': return IterV('own', [Cell(x) for x in drain()[::-1]])
     if key == 'flat_map':
         out = []
@@ -1330,9 +1418,11 @@ def m_iter_adapters(m, callee, a):
         while i < len(xs) and m.branch(call_closure(m, a[1], [Ptr(Cell(xs[i]))])): i += 1
         return IterV('own', [Cell(x) for x in xs[i:]])
     if key == 'take_while':
-        xs = drain(); i = 0
-        while i < len(xs) and m.branch(call_closure(m, a[1], [Ptr(Cell(xs[i]))])): i += 1
-        return IterV('own', [Cell(x) for x in xs[:i]])
+        out = []
+        for x in each():
+            if not m.branch(call_closure(m, a[1], [Ptr(Cell(x))])): break
+            out.append(Cell(x))
+        return IterV('own', out)
     if key == 'step_by':
         n = m.concretize(a[1]); return IterV('own', [Cell(x) for x in drain()[::n]])
     if key in ('min', 'max'):
@@ -1346,7 +1436,12 @@ def m_iter_adapters(m, callee, a):
     if key == 'skip':
         n = m.concretize(a[1]); return IterV('own', [Cell(x) for x in drain()[n:]])
     if key == 'take':
-        n = m.concretize(a[1]); return IterV('own', [Cell(x) for x in drain()[:n]])
+        n = m.concretize(a[1]); out = []
+        if n > 0:
+            for x in each():
+                out.append(Cell(x))
+                if len(out) >= n: break
+        return IterV('own', out)
     if key in ('cloned', 'copied'): return IterV('own', [Cell(deep_clone(m, deref(x))) for x in drain()])
     if key == 'peekable' : return it
     if key == 'chain': return IterV('own', [Cell(x) for x in drain()] + [Cell(x) for x in _drain(m, a[1])])
@@ -1354,20 +1449,20 @@ def m_iter_adapters(m, callee, a):
         xs, ys = drain(), _drain(m, a[1])
         return IterV('own', [Cell(Agg(None, None, None, [x, y])) for x, y in zip(xs, ys)])
     if key == 'all':
-        for x in drain():
+        for x in each():
             if not m.branch(call_closure(m, a[1], [x])): return False
         return True
     if key == 'any':
-        for x in drain():
+        for x in each():
             if m.branch(call_closure(m, a[1], [x])): return True
         return False
     if key == 'count': return len(drain())
     if key == 'position':
-        for i, x in enumerate(drain()):
+        for i, x in enumerate(each()):
             if m.branch(call_closure(m, a[1], [x])): return some(i)
         return none()
     if key == 'find':
-        for x in drain():
+        for x in each():
             if m.branch(call_closure(m, a[1], [Ptr(Cell(x))])): return some(x)
         return none()
     if key == 'for_each':
@@ -1376,7 +1471,10 @@ def m_iter_adapters(m, callee, a):
     if key == 'last':
         xs = drain(); return some(xs[-1]) if xs else none()
     if key == 'nth':
-        xs = drain(); n = m.concretize(a[1]); return some(xs[n]) if n < len(xs) else none()
+        n = m.concretize(a[1])
+        for i, x in enumerate(each()):
+            if i == n: return some(x)
+        return none()
     if key in ('sum', 'product'):
         # the element type decides the arithmetic: floats fold with IEEE ops, integers with overflow checks
         xs = [deref_char(x) for x in drain()]
@@ -1408,9 +1506,19 @@ def _drain(m, it):
 
 
 def canon_last(callee):
+    """method name of a callee path: the trailing generic argument list (which may itself contain paths with `::<`) is cut off"""
     s = callee
-    if '::<' in s and s.endswith('>'):
-        s = s[:s.rindex('::<')]
+    if s.endswith('>') and '::<' in s:
+        depth, i = 0, len(s) - 1
+        while i >= 0:
+            ch = s[i]
+            if ch == '>' and not (i > 0 and s[i - 1] == '-'): depth += 1
+            elif ch == '<':
+                depth -= 1
+                if depth == 0: break
+            i -= 1
+        if i >= 2 and s[i - 2:i] == '::': s = s[:i - 2]
+        else: s = s[:s.rindex('::<')]
     return s.split('::')[-1]
 
 
@@ -1781,6 +1889,57 @@ def m_slice_join(m, callee, a):
         if i: out.extend(sep)
         out.extend(as_rstr(x.v).chars)
     return RStr(out)
+
+
+@model('<String as Extend>::extend')
+def m_string_extend(m, c, a):
+    st = deref(a[0])
+    for v in _drain(m, a[1]):
+        v = deref_char(v)
+        if isinstance(v, (str, Sym)): st.chars.append(v)
+        else: st.chars.extend(as_rstr(v).chars)
+    return UNIT
+
+
+@model('HashMap::entry')
+def m_map_entry(m, c, a):
+    return Agg('MapEntry', None, None, [deref(a[0]), RStr(as_rstr(a[1]).chars)])
+
+
+def _default_for(callee):
+    # Entry::<K, V>::or_default: V from the generics
+    g = callee[callee.index('::<') + 3:] if '::<' in callee else ''
+    parts, depth, cur = [], 0, ''
+    for ch in g:
+        if ch in '<([': depth += 1
+        elif ch in '>)]':
+            if depth == 0: break
+            depth -= 1
+        if ch == ',' and depth == 0: parts.append(cur.strip()); cur = ''
+        else: cur += ch
+    parts.append(cur.strip())
+    parts = [x for x in parts if x and not x.startswith("'")]
+    v = parts[1] if len(parts) > 1 else ''
+    v = v.replace('std::vec::', '').replace('std::string::', '').replace('std::collections::', '')
+    if v.startswith('Vec<'): return VecV([])
+    if v.startswith('String'): return RStr([])
+    if v.startswith('HashMap<'): return MapV()
+    if re.match(r'[iu](8|16|32|64|128|size)\b', v): return 0
+    if v.startswith('bool'): return False
+    if v.startswith('f64'): return 0.0
+    if v.startswith('Option<'): return none()
+    raise Unsupported('default value for ' + v)
+
+
+@model('Entry::or_default', 'Entry::or_insert', 'Entry::or_insert_with')
+def m_entry_or(m, callee, a):
+    e = a[0]; mp, k = e.fields[0].v, e.fields[1].v
+    i = map_find(m, mp, k)
+    if i < 0:
+        key = canon_last(callee)
+        v = _default_for(callee) if key == 'or_default' else (a[1] if key == 'or_insert' else call_closure(m, a[1], []))
+        mp.e.append((RStr(k.chars), Cell(v))); i = len(mp.e) - 1
+    return Ptr(mp.e[i][1])
 
 
 @model('<HashMap as Extend>::extend')
